@@ -27,6 +27,7 @@ func run(seed uint64, n int, tier string, outDir string) []*Stats {
 	cf.AddCases("skip_cases", "Z * Z * Z * toks * bool * Z * list tk", "check_skip", skipperCases(r, st, n))
 	cf.AddCases("target_cases", "target_case", "check_target", targetCases(r, st))
 	cf.AddCases("pp_cases", "pp_case", "check_pp", paramPropCases(r, st, n/2))
+	cf.AddCases("resolve_cases", "resolve_case", "check_resolve", resolveCases(r, st, n/2))
 	cf.AddCases("enum_cases", "enum_case", "check_enum", enumCases(r, st, n/2))
 	glueGrid(st)
 	glueTyped(r, st, n)
